@@ -77,6 +77,21 @@ theorem remove_shifts (a : List Val) (i : Nat) (j : Nat) (hi : i < a.length) :
   simp only [adel, hg, Bool.false_eq_true, if_false, Int.toNat_natCast]
   rw [List.getElem?_eraseIdx]
 
+/-- a handle on element j keeps addressing its node when an element in front of it is removed: the node is found one
+index lower (this is the renumbering `opStep` applies to the handles of a history) -/
+theorem shifted_handle_same_node (a : List Val) (i j : Nat) (hi : i < a.length) (hj : i < j) :
+    ((adel a i).1)[j - 1]? = a[j]? := by
+  rw [remove_shifts a i (j - 1) hi]
+  have h1 : ¬ (j - 1 < i) := by omega
+  have h2 : j - 1 + 1 = j := by omega
+  simp [h1, h2]
+
+/-- ... and a handle on an element in front of the removed one is not affected at all -/
+theorem earlier_handle_same_node (a : List Val) (i j : Nat) (hi : i < a.length) (hj : j < i) :
+    ((adel a i).1)[j]? = a[j]? := by
+  rw [remove_shifts a i j hi]
+  simp [hj]
+
 /-- … and reports that something was removed exactly when the index was inside the list -/
 theorem remove_flag (a : List Val) (i : Int) : (adel a i).2 = true ↔ (0 ≤ i ∧ i < a.length) := by
   unfold adel
